@@ -812,6 +812,13 @@ func (b *Builder) callTerm(v ssa.Value, c *ssa.CallCommon, depth int) *Term {
 		args = append(args, b.of(a, at, depth+1))
 	}
 	if name == "builtin.len" || name == "builtin.cap" {
+		if name == "builtin.len" && len(args) == 1 && args[0].Op == "conv" && (args[0].Name == "[]byte" || args[0].Name == "[]uint8" || args[0].Name == "string") && len(args[0].Args) == 1 {
+			if tt := termType(args[0].Args[0]); tt != nil {
+				if tn := typeName(tt.Underlying()); tn == "string" || tn == "[]byte" || tn == "[]uint8" {
+					args = []*Term{args[0].Args[0]} // len([]byte(s)) == len(s)
+				}
+			}
+		}
 		return &Term{Op: strings.TrimPrefix(name, "builtin."), V: v, Args: args}
 	}
 	if name == "dynamic" {
